@@ -50,8 +50,8 @@ def src_lines(text):
 def mkcase(cid, text, files=(), origin="generated", second=None, kind="", pretext=False):
     if pretext:
         # the source is handed to the compiler as pre_text of a file that does not exist
-        return E.Case(cid, ["probe"] + src_lines(text) + ["pretext", "probe"], {"origin": origin, "kind": kind})
-    lines = ["probe"] + src_lines(text)
+        return E.Case(cid, ["aprobe-arm", "probe"] + src_lines(text) + ["pretext", "probe", "aprobe"], {"origin": origin, "kind": kind})
+    lines = ["aprobe-arm", "probe"] + src_lines(text)
     for fn, t in files:
         t = t.encode("latin-1", "replace") if isinstance(t, str) else t
         for j in range(0, max(len(t), 1), 2000):
@@ -59,7 +59,7 @@ def mkcase(cid, text, files=(), origin="generated", second=None, kind="", pretex
     lines.append("compile")
     if second is not None:
         lines += ["newsrc"] + src_lines(second) + ["compile"]
-    lines.append("probe")
+    lines += ["probe", "aprobe"]
     return E.Case(cid, lines, {"origin": origin, "kind": kind})
 
 
@@ -84,12 +84,15 @@ class C02(Prop):
     level_text = ("PARTIAL.  Lean 4 theorems about an executable model of the LPC compiler's bookkeeping: locals tables "
                   "(sizes, cursors, add_local_name / pop_n_locals / reallocate_locals / function-literal enter+leave with "
                   "error-abandoned literals), mem_block doubling, include counter and stack, function-context stack, the "
-                  "SAVEC bound on yytext, identifier references taken by locals; for ALL event sequences every table access "
+                  "SAVEC bound on yytext, identifier sem_value references and bindings in every name space (local / function / global / class) with the "
+                  "dirty list of permanent identifiers; for ALL event sequences every table access "
                   "is inside its allocation and end-of-compile cleanup restores the initial configuration.  The model is "
                   "tied to the source by regenerated constants and by replaying the event stream emitted by the real "
                   "compiler (hook H3) through the model: every (cursor, size) pair must be reproduced.  The Lean oracle "
                   "judges every implementation trace; sources come from three fuzzers under ASan+UBSan with a per-case "
-                  "timeout; a fixed probe program is compiled before and after each input and must dump identically.")
+                  "timeout; a fixed probe program is compiled before and after each input and must dump identically, and an adaptive probe "
+                  "(tiny programs mentioning every identifier the input declared, as rvalue / lvalue / functional / call / class "
+                  "name) must have the same outcome as in a pristine sibling process that never saw the input.")
     level_note = ("partial: the lexer's linked-buffer refill machine, macro expansion buffers, bison's stacks, the parse-tree "
                   "and code generator (icode/generate, prog_code growth) and termination are NOT modelled - they are only "
                   "observed under sanitizers and a timeout; the reusability half (probe program identical before/after) is "
@@ -107,7 +110,7 @@ class C02(Prop):
     not_covered = ["lexer buffer machine (refill_buffer/add_input linked buffers, DEFMAX/EXPANDMAX expansion buffers): sanitizer-observed only",
                    "bison parser stacks (YYMAXDEPTH), parse trees, icode/generate code emission incl. prog_code growth: sanitizer-observed only",
                    "termination of compilation: observed with a 20 s per-case timeout, not proved",
-                   "probe-program reusability check is exploration (one fixed probe), not proof",
+                   "probe-program reusability check is exploration (one fixed probe + adaptive probe of at most 24 declared names), not proof",
                    "MaxLocalVariables > 127 (num_local is saved in a `char` by the grammar) is not explored",
                    "errors raised by LPC code called during compilation (master log_error etc.) leave compile_file()'s static guard set; not explored",
                    "size_t / short overflow of counters (sem_value is a short) is not modelled"]
@@ -240,6 +243,16 @@ class C02(Prop):
             B.append(mkcase("b-pretext-%d" % n, body, (), "boundary", pretext=True))
         for n in (127, 128, 130, 200, 255, 256, 300):
             mk("block-%d" % n, "void f() { int q; { int %s; } q = 1; }" % ids("a", n))
+        # round 3: one efun / simul_efun name bound in several name spaces at once
+        mk("ns-global-function", "string write; void write(string s) { }\n")
+        mk("ns-function-class", "void time() { }\nclass time { int a; }\n")
+        mk("ns-global-class", "int sizeof;\nclass sizeof { int a; }\nint f() { return 1; }\n")
+        mk("ns-all-three", "int vsimul_marker;\nclass vsimul_marker { int a; }\nint vsimul_marker() { return 1; }\nvoid f(int vsimul_marker) { int g; { int users; } }\n")
+        mk("ns-all-three-error", "int write;\nclass write { int a; }\nint write() { return 1; }\nvoid f(int write) { int g; + }\n")
+        mk("ns-global-twice", "int time; string time;\nvoid f() { time = 1; }\n")
+        mk("ns-eof-in-class", "int keys() { return 1; }\nint keys;\nclass keys { int a;")
+        mk("ns-then-use", "string write; void write(string s) { }\n", second="mixed f() { return write; }\nmixed g() { return (: write :); }\n")
+        mk("fold-overflow", "int x = 9223372036854775807 + 1;\nint y = 4611686018427387904 * 4;\nint z = -9223372036854775807 - 10;\n")
         mk("two-sources", "void f() { int time; { int time; } }", second="int g() { return time(); }")
         mk("empty", "")
         mk("nul-bytes", "int x;\x00\x00 int y;\n")
@@ -386,7 +399,7 @@ class C02(Prop):
         st = {"n": 0, "names": []}
         parts = []
         files = []
-        kind = rng.weighted([("fn", 10), ("deep", 2), ("inc", 3), ("pre", 2), ("big", 1), ("long", 2)])
+        kind = rng.weighted([("fn", 10), ("deep", 2), ("inc", 3), ("pre", 2), ("big", 1), ("long", 2), ("ns", 5)])
         if kind == "deep":
             d = rng.range(8, 14)
             inner = self.g_block(rng, st, d)
@@ -440,7 +453,19 @@ class C02(Prop):
                 parts.append("int z = 1 " + "+ 1 " * (n // 4) + ";\n")
             else:
                 parts.append("#define L(a) a\nint w = L(" + "1+" * (n // 2) + "1);\n")
-        for fi in range(rng.weighted([(1, 5), (2, 3), (4, 2), (8, 1)]) if kind in ("fn", "deep") else 1 if kind != "big" else 0):
+        if kind == "ns":
+            # the same efun / simul_efun name in two or three name spaces (global, function, class, local, nested)
+            for _ in range(rng.range(1, 4)):
+                nm = rng.choice(EFUN_NAMES)
+                decls = rng.shuffle(["%s %s;\n" % (rng.choice(["int", "string", "mixed", "private int", "static string"]), nm),
+                                     "%s %s(%s) { %s}\n" % (rng.choice(["int", "void", "mixed", ""]), nm, self.g_args(rng, st),
+                                                             self.g_block(rng, st, 0) if rng.chance(1, 2) else "return 0; "),
+                                     "class %s { %s}\n" % (nm, self.g_decls(rng, st, rng.range(1, 3))),
+                                     "%s %s(int a);\n" % (rng.choice(["int", "void"]), nm),
+                                     "void u%d(int %s) { int q; { int %s; } q = function(int %s) { return %s; }; }\n" % (rng.below(100), nm, nm, nm, nm),
+                                     "mixed w%d() { return %s; }\n" % (rng.below(100), rng.choice([nm, "(: %s :)" % nm, "%s()" % nm, "new(class %s)" % nm]))])
+                parts += decls[:rng.range(2, len(decls))]
+        for fi in range(rng.weighted([(1, 5), (2, 3), (4, 2), (8, 1)]) if kind in ("fn", "deep", "ns") else 1 if kind != "big" else 0):
             st["names"] = []
             head = "%s %sfn%d(%s)" % (rng.choice(["int", "void", "mixed", "", "varargs int", "private string", "static mixed *"]),
                                      "", fi, self.g_args(rng, st))
@@ -458,7 +483,8 @@ class C02(Prop):
             text = text[:i] + rng.choice(["+", ")", "}", "{", "(", "\"", "@", "#", ";", "function(", "\x00", "\xff"]) + text[i:]
         second = None
         if rng.chance(1, 5):
-            second = "int probe2() { return time() + sizeof(({ })) + vsimul_marker(); }\n"
+            second = rng.choice(["int probe2() { return time() + sizeof(({ })) + vsimul_marker(); }\n",
+                                 "mixed p3() { return write; }\n", "mixed p4() { return ({ (: write :), (: time :), (: vsimul_marker :) }); }\n"])
         if not files and second is None and rng.chance(1, 12):
             return mkcase(cid, text, kind="grammar-" + kind + "-pretext", pretext=True)
         return mkcase(cid, text, files, second=second, kind="grammar-" + kind)
